@@ -178,3 +178,70 @@ Example C02_ex_genuine :
   | Err _ => None
   end = Some ([[x68; x69]; []], EOF, false).
 Proof. vm_compute. reflexivity. Qed.
+
+(* ===== BEGIN props/C02.v ===== *)
+(* ---- END TO END (source level): authenticity of what the TRANSLATED saltpack.Open / NewDecryptStream of /repo release.
+   Composition of C02_source-level receiver ties (GoAstProofs7c.go_Open + open_outcome_model, go_NewDecryptStream; the
+   per-chunk tie re-proved on the constructor's object) with C02_all_at_once / C02_authentic.  The hypothesis "the outcome
+   is not the stuck evaluator" of open_outcome_model is discharged: a successful result is not stuck.  See the header of
+   proofs/GoEndToEndAuth.v for readings, the externs and what is not composed (chunkReader.Read's re-slicing). ---- *)
+From SP Require GoAstOpen GoAstRecv GoAstProofs4b GoAstProofs5a GoAstProofs7c GoEndToEndAuth.
+Section C02_source_end_to_end.
+Import GoLang GoLang2 GoAstOpen GoAstRecv GoAstProofs4b GoAstProofs7c GoEndToEndAuth.
+Local Open Scope string_scope.
+
+Theorem C02_source_end_to_end_Open (c : crypto) (Hc : crypto_ok c) (pm : bytes -> gval) (s_sk r_sk : bytes)
+        (vd : validator) (senders : option (list bytes)) (VV RING : gval) (input : bytes)
+        (m : mki) (pt : bytes) (L : list enc_msg) :
+  Forall (em_ok c s_sk) L -> em_headers_distinct c s_sk L ->
+  (N.of_nat (List.length input) < 18446744073709551616)%N ->
+  let kr := mkRing [(r_sk, dh_pub c r_sk)] senders in
+  open_class (fst (run_func2 (ext_open c pm vd kr) f_saltpack_Open [VV; VBytes input; RING])) = Ok (m, pt) ->
+  mki_sender m = dh_pub c s_sk -> mki_sender_anon m = false ->
+  (exists msg hide pos,
+      In msg L /\ nth_error (em_rs msg) pos = Some (dh_pub c r_sk, hide) /\ pt = List.concat (map fst (em_packets msg)))
+  \/ EncBreakL c s_sk r_sk vd kr L input.
+Proof. exact (go_Open_authentic c Hc pm s_sk r_sk vd senders VV RING input m pt L). Qed.
+
+Theorem C02_source_end_to_end_Open_nil_error (c : crypto) (Hc : crypto_ok c) (pm : bytes -> gval) (s_sk r_sk : bytes)
+        (vd : validator) (senders : option (list bytes)) (VV RING : gval) (input : bytes)
+        (mk body : gval) (L : list enc_msg) :
+  Forall (em_ok c s_sk) L -> em_headers_distinct c s_sk L ->
+  (N.of_nat (List.length input) < 18446744073709551616)%N ->
+  let kr := mkRing [(r_sk, dh_pub c r_sk)] senders in
+  fst (run_func2 (ext_open c pm vd kr) f_saltpack_Open [VV; VBytes input; RING]) = ORet [mk; body; VNil] ->
+  exists m k pt,
+    mk = g_mki m k /\ snd k = mki_receiver m /\ body = VBytes pt /\
+    (mki_sender m = dh_pub c s_sk -> mki_sender_anon m = false ->
+     (exists msg hide pos,
+         In msg L /\ nth_error (em_rs msg) pos = Some (dh_pub c r_sk, hide) /\ pt = List.concat (map fst (em_packets msg)))
+     \/ EncBreakL c s_sk r_sk vd kr L input).
+Proof. exact (go_Open_authentic_nil_error c Hc pm s_sk r_sk vd senders VV RING input mk body L). Qed.
+
+Theorem C02_source_end_to_end_NewDecryptStream (c : crypto) (Hc : crypto_ok c) (pm : bytes -> gval) (s_sk r_sk : bytes)
+        (vd : validator) (senders : option (list bytes)) (VV r RING : gval) (input : bytes)
+        (mk rdr : gval) (L : list enc_msg) :
+  Forall (em_ok c s_sk) L -> em_headers_distinct c s_sk L ->
+  (N.of_nat (List.length input) < 18446744073709551616)%N ->
+  rdr_bytes r = Some input ->
+  let kr := mkRing [(r_sk, dh_pub c r_sk)] senders in
+  fst (run_func2 (ext_nds c pm vd kr) f_saltpack_NewDecryptStream [VV; r; RING]) = ORet [mk; rdr; VNil] ->
+  exists m k obj,
+    mk = g_mki m k /\ snd k = mki_receiver m /\ rdr = g_cr_new obj /\
+    (mki_sender m = dh_pub c s_sk -> mki_sender_anon m = false ->
+     forall F, (N.of_nat F <= 18446744073709551616)%N ->
+       let d := go_drain (ext_chunk c TBytes) f_saltpack_decryptStream_getNextChunk "ds" F obj in
+       exists chunks tl,
+         fst d = (chunks ++ tl)%list /\ (tl = [] \/ tl = [[]]) /\
+         ((chunks = [] /\ snd d <> Some (VErr "io.EOF" [])) \/
+          (exists msg hide pos,
+              In msg L /\ nth_error (em_rs msg) pos = Some (dh_pub c r_sk, hide) /\
+              list_prefix chunks (map fst (em_packets msg)) /\
+              (snd d = Some (VErr "io.EOF" []) -> chunks = map fst (em_packets msg)))
+          \/ EncBreakL c s_sk r_sk vd kr L input)).
+Proof. exact (go_NewDecryptStream_authentic c Hc pm s_sk r_sk vd senders VV r RING input mk rdr L). Qed.
+End C02_source_end_to_end.
+Print Assumptions C02_source_end_to_end_Open.
+Print Assumptions C02_source_end_to_end_Open_nil_error.
+Print Assumptions C02_source_end_to_end_NewDecryptStream.
+
